@@ -140,6 +140,34 @@ class ProcessorUpdate(Contract, VersionModes):
                  z3.And(has, hasv, en == V.VBool(self.expect), pv == self.v), watch={"version": self.v})
 
 
+class ClientSetProtocolVersion(Contract, VersionModes):
+    """StdioClient.set_protocol_version(v): the connection's processor is switched to v - whatever v is (a version the
+    library does not list included) and whatever mode the connection was in before - so the accept/reject decision
+    follows the date ordering of the NEGOTIATED version, not the connection's history"""
+    key = "src/chuk_mcp/transports/stdio/stdio_client.py::StdioClient.set_protocol_version"
+    prop = "C13"
+    covers = ("return",)
+
+    def __init__(self, mode):
+        self.mode = mode
+
+    def setup(self, I):
+        old_v = I.fresh("old_version")
+        old_en = I.fresh("old_enabled")
+        I.assume(V.is_bool(old_en))
+        self.obj = processor_object(I, old_v, old_en)
+        ccd = I.ctx.repo_class(I.ctx.repo.klass("src/chuk_mcp/transports/stdio/stdio_client.py::StdioClient"))
+        self.client = I.new_object(ccd, {"batch_processor": self.obj})
+        return [self.client, self.version(I)], {}
+
+    def post(self, I, result):
+        en, has = I.get_field(self.obj, "batching_enabled")
+        pv, hasv = I.get_field(self.obj, "protocol_version")
+        bp, _ = I.get_field(self.client, "batch_processor")
+        I.oblige(self.name(f"processor_follows_the_negotiated_version[{self.mode}]"),
+                 z3.And(bp == self.obj, has, hasv, en == V.VBool(self.expect), pv == self.v), watch={"version": self.v})
+
+
 class CanProcessBatch(Contract, VersionModes):
     key = f"{BATCHING}::BatchProcessor.can_process_batch"
     prop = "C13"
@@ -268,6 +296,8 @@ class C13(Check):
             cs += [SupportsBatching(mode), ShouldRejectBatch(mode), ProcessorInit(mode), CanProcessBatch(mode)]
         for mode in ("dated",):
             cs += [ProcessorUpdate(mode)]
+            if mode == "dated":
+                cs += [ClientSetProtocolVersion(mode)]
         return cs
 
     def lemmas(self):
